@@ -239,6 +239,13 @@ func c20Property(rt *rapid.T, ev *evid.Rec) {
 		}
 		return ig
 	}
+	// one stored integration without a stop: its runner never ends by itself (as in production)
+	forever := rapid.IntRange(0, 2).Draw(rt, "forever") == 0
+	if forever {
+		f := c20Ig{name: "forever", enabled: true, where: "db"}
+		f.srcs = append(f.srcs, refmodel.SourceRef{Name: srcs[0].name, Start: 1, Stop: 0})
+		dbIgs = append(dbIgs, f)
+	}
 	for i := 0; i < nig; i++ {
 		name := fmt.Sprintf("ig%d", i+1)
 		switch rapid.IntRange(0, 3).Draw(rt, "igwhere") {
@@ -319,6 +326,19 @@ func c20Property(rt *rapid.T, ev *evid.Rec) {
 			}
 		}
 	}
+	// every source resolves to its own definition and its own endpoints (the file wins a name clash)
+	if byName, err := conf.AllSourcesByName(context.Background(), pool); err == nil {
+		for _, sx := range srcs {
+			got, ok := byName[sx.name]
+			want := []string{sx.url}
+			if sx.inDB && !sx.inFile {
+				want = []string{sx.url}
+			}
+			if !ok || strings.Join(got.URLs, " ") != strings.Join(want, " ") {
+				rt.Fatalf("VERIF-VIOLATION property=C20 source %s resolves to URLs %v, configured %v (file=%v db=%v)", sx.name, got.URLs, want, sx.inFile, sx.inDB)
+			}
+		}
+	}
 	mgr := shovel.NewManager(context.Background(), pool, conf)
 	fail := func(f string, a ...any) {
 		rt.Fatalf("VERIF-VIOLATION property=C20 %s\n file=%+v\n db=%+v", fmt.Sprintf(f, a...), file, dbIgs)
@@ -358,10 +378,60 @@ func c20Property(rt *rapid.T, ev *evid.Rec) {
 	ec := make(chan error)
 	go mgr.Run(ec)
 	checkGen("Run", <-ec)
-	gated, b2b, storedNew := false, false, false
+	gated, b2b, storedNew, loadOverlap := false, false, false, false
 	nact := rapid.IntRange(1, 5).Draw(rt, "nactions")
 	for a := 0; a < nact; a++ {
-		switch rapid.IntRange(0, 4).Draw(rt, "action") {
+		switch rapid.IntRange(0, 5).Draw(rt, "action") {
+		case 5: // a second restart arrives while the generation of the first one is still loading its tasks
+			stall := make(chan struct{})
+			stalled := make(chan struct{}, 1)
+			var once sync.Once
+			db.Fault = func(op fakepg.Op) fakepg.Fault {
+				if strings.Contains(op.SQL, "shovel.integrations") && strings.HasPrefix(strings.TrimSpace(strings.ToLower(op.SQL)), "select") {
+					once.Do(func() {
+						stalled <- struct{}{}
+						<-stall
+					})
+				}
+				return fakepg.Fault{}
+			}
+			var e1, e2 error
+			var p1, p2 any
+			d1, d2 := make(chan struct{}), make(chan struct{})
+			go func() { p1 = catch(func() { e1 = mgr.Restart() }); close(d1) }()
+			select {
+			case <-stalled:
+				ni := mkIg(fmt.Sprintf("late%d", a), "db")
+				store(ni)
+				dbIgs = append(dbIgs, ni)
+				go func() { p2 = catch(func() { e2 = mgr.Restart() }); close(d2) }()
+				time.Sleep(5 * time.Millisecond)
+				close(stall)
+				for _, d := range []chan struct{}{d1, d2} {
+					select {
+					case <-d:
+					case <-time.After(10 * time.Second):
+						db.Fault = nil
+						fail("a Restart that arrived while the previous generation was loading its tasks did not return within 10 s (history %v)", hist)
+					}
+				}
+				loadOverlap = true
+			case <-d1:
+				close(stall)
+				close(d2)
+			case <-time.After(2 * time.Second):
+				close(stall)
+				<-d1
+				close(d2)
+			}
+			db.Fault = nil
+			if p1 != nil || p2 != nil {
+				fail("Restart panicked: %v %v (history %v)", p1, p2, hist)
+			}
+			if e2 != nil && e1 == nil {
+				e1 = e2
+			}
+			checkGen("Restart while loading + store+Restart", e1)
 		case 0: // a newly stored integration is picked up
 			ni := mkIg(fmt.Sprintf("new%d", a), "db")
 			store(ni)
@@ -448,6 +518,30 @@ func c20Property(rt *rapid.T, ev *evid.Rec) {
 			fail("%s (history %v)", v, hist)
 		}
 	}
+	if forever {
+		// the operator removes the never-ending integration: the next generation has no runner for it
+		db.DeleteRows("shovel.integrations", func(v map[string]any) bool { return v["name"] == "forever" })
+		var kept []c20Ig
+		for _, i := range dbIgs {
+			if i.name != "forever" {
+				kept = append(kept, i)
+			}
+		}
+		dbIgs = kept
+		var rerr error
+		done := make(chan struct{})
+		var pn any
+		go func() { pn = catch(func() { rerr = mgr.Restart() }); close(done) }()
+		select {
+		case <-done:
+		case <-time.After(10 * time.Second):
+			fail("the final Restart did not return within 10 s (history %v)", hist)
+		}
+		if pn != nil {
+			fail("Restart panicked: %v (history %v)", pn, hist)
+		}
+		checkGen("remove never-ending integration + Restart", rerr)
+	}
 	// let the runners finish (every task has a stop) and check once more
 	deadline := time.Now().Add(3 * time.Second)
 	for time.Now().Before(deadline) {
@@ -479,7 +573,7 @@ func c20Property(rt *rapid.T, ev *evid.Rec) {
 			fail("tasks of source %s finished (%d positions at the stop block) but the node of %s was never asked for a block: they talked to another source's node (history %v)", s.name, done, s.name, hist)
 		}
 	}
-	ev.Case(clash || unknownRef || gated || b2b, fmt.Sprint(file, dbIgs, hist), fmt.Sprintf("sameChainSources=%v", sameChain), fmt.Sprintf("manySources=%v", len(fillers) > 0), fmt.Sprintf("clash=%v", clash), fmt.Sprintf("unknownSource=%v", unknownRef), fmt.Sprintf("restartDuringStep=%v", gated), fmt.Sprintf("backToBack=%v", b2b), fmt.Sprintf("storedNew=%v", storedNew))
+	ev.Case(clash || unknownRef || gated || b2b, fmt.Sprint(file, dbIgs, hist), fmt.Sprintf("sameChainSources=%v", sameChain), fmt.Sprintf("manySources=%v", len(fillers) > 0), fmt.Sprintf("clash=%v", clash), fmt.Sprintf("unknownSource=%v", unknownRef), fmt.Sprintf("restartDuringStep=%v", gated), fmt.Sprintf("backToBack=%v", b2b), fmt.Sprintf("restartWhileLoading=%v", loadOverlap), fmt.Sprintf("neverEndingTask=%v", forever), fmt.Sprintf("storedNew=%v", storedNew))
 	if (gated || b2b) && ev.WantSample(3) {
 		ev.Sample(3, map[string]any{"file_integrations": fmt.Sprint(file), "db_integrations": fmt.Sprint(dbIgs), "history": hist})
 	}
